@@ -702,4 +702,40 @@ example : (transform [exCb] (.obj 1 10 [.list [.obj 2 11 [.leaf 5] (some 7)]] (s
 
 end C16
 
+/-! ## C11 / C13 – context tables -/
+
+/-- the `_Context` table as the epilogue of `generate_source_code` fills it for a module without
+    parent: every rule name is bound to the module's own implementation -/
+def ownCtx (names : List String) : List (String × Nat) := names.zipIdx
+
+def ctxLookup (ctx : List (String × Nat)) (n : String) : Option Nat :=
+  (ctx.find? (·.1 == n)).map (·.2)
+
+theorem ctxLookup_zipIdx (names : List String) (n : String) (k : Nat) :
+    ctxLookup (names.zipIdx k) n = (names.idxOf? n).map (· + k) := by
+  induction names generalizing k with
+  | nil => simp [ctxLookup, List.idxOf?]
+  | cons a as ih =>
+    simp only [List.zipIdx_cons, ctxLookup, List.find?_cons]
+    by_cases h : a = n
+    · subst h; simp [List.idxOf?, List.findIdx?_cons]
+    · have hne : (a == n) = false := by simpa using h
+      simp only [hne]
+      have := ih (k + 1)
+      simp only [ctxLookup] at this
+      rw [this]
+      simp [List.idxOf?, List.findIdx?_cons, hne]
+      cases List.findIdx? (fun x => x == n) as <;> simp; omega
+
+/-- **C11.**  In a named grammar every reference goes through the context table; for a module
+    without parent the table is the identity: looking a rule up through it finds the rule's own
+    implementation, exactly what the direct reference of an unnamed grammar denotes. -/
+theorem C11_context_table_identity (names : List String) (n : String) :
+    ctxLookup (ownCtx names) n = names.idxOf? n := by
+  unfold ownCtx
+  rw [ctxLookup_zipIdx]
+  cases names.idxOf? n <;> simp
+
+example : ctxLookup (ownCtx ["start", "A", "B"]) "A" = some 1 := by decide
+
 end Sourcer
